@@ -166,6 +166,15 @@ pub fn run(a: &Args) {
         let mut rng = Rng::for_case(a.seed, 2, case as u64 + 1);
         if case % 4 == 0 {
             let t = families(&mut rng);
+            if case % 16 == 4 {
+                // the same families with 64..70 unused tokens declared first, so that every lookahead the
+                // grammar really uses has an index beyond the first storage word of a lookahead set
+                let k = 64 + rng.below(7);
+                let ks: Vec<String> = (0..k).map(|i| format!("K{}", i)).collect();
+                let t2 = t.replacen("%%\n", &format!("%token {}\n%%\n", ks.join(" ")), 1);
+                emit(&mut out, &t2, &mut rng, a.thorough, "lr1_family_many_tokens");
+                continue;
+            }
             emit(&mut out, &t, &mut rng, a.thorough, "lr1_family");
         } else {
             let cfg = GenCfg { precs: false, max_rules: 5, ..GenCfg::default() };
